@@ -460,6 +460,7 @@ func (p *Package) newValueDecl(
 		if name == "_" { // skip underscore
 			continue
 		}
+		p.useName(name) // also for declarations without initializer
 		if typ != nil && tok == token.VAR {
 			if old := scope.Insert(types.NewVar(pos, p.Types, name, typ)); old != nil {
 				allowRedecl := p.allowRedecl && scope == p.Types.Scope()
@@ -769,6 +770,7 @@ func (p *ConstDefs) NextAt(at ValueAt, fn F, iotav int, pos token.Pos, names ...
 			typ = ret[i].Type
 		}
 		if name != "_" {
+			pkg.useName(name)
 			if old := p.scope.Insert(types.NewConst(pos, pkg.Types, name, typ, ret[i].CVal)); old != nil {
 				oldpos := cb.fset.Position(old.Pos())
 				cb.panicCodeErrorf(
